@@ -167,3 +167,18 @@ fn path_of_file() {
 path_instances! {
     c12_k5_path_of_file => path_of_file();
 }
+
+/// C04.K3 — path_of_entry for directory entries: id segments become nested directories under the root; "" is the root
+fn path_of_dirs() {
+    let root = std::path::Path::new("/r");
+    let cases: [(&str, &str); 3] = [("", "/r"), ("a", "/r/a"), ("d.e", "/r/d/e")];
+    let mut i = 0;
+    while i < 3 {
+        let p = crate::utils::path_of_entry(root, crate::source::DirEntry::Directory(cases[i].0));
+        assert!(p.as_path() == std::path::Path::new(cases[i].1), "C04 the path of a directory id is root/segments (the empty id is the root itself)");
+        i += 1;
+    }
+}
+path_instances! {
+    c04_k3_path_of_dirs => path_of_dirs();
+}
